@@ -111,6 +111,7 @@ static std::string run(const std::string& f, const Integer& n, const Integer& d)
         if (f == "cast.abs64") { unsigned long a = std::abs(nl); return WU(a); }          // nl != INT64_MIN (the check never sends it)
         if (f == "cast.neg64") { unsigned long a = -nl; return WU(a); }                    // idem
         if (f == "cast.i64_dbl") { double x = static_cast<double>(nl); Integer t; mpz_set_d(t.get_mpz(), x); return S(t); }
+        if (f == "cast.mpz_dbl") { double x = mpz_get_d(n.get_mpz_const()); Integer t; mpz_set_d(t.get_mpz(), x); return S(t); }   // Integer::operator double
         if (f == "cast.dbl_u64") { double x = ldexp(mpz_get_d(n.get_mpz_const()), -4); return WU(static_cast<uint64_t>(x)); }
         return "UNKNOWN-FORM";
     }
